@@ -68,6 +68,8 @@ def _run_one(m, keep=False):
         subprocess.check_call(["rsync", "-a", "--exclude", "target", "--exclude", ".git", REPO + "/", root + "/"])
         if m.get("patch"):
             subprocess.check_call(["git", "apply", "--whitespace=nowarn", m["patch"]], cwd=root)
+            if m.get("edits") or m.get("file"):
+                apply_edit(root, m)        # a mutant of a refactored tree: the patch first, then the edit
         else:
             apply_edit(root, m)
         results = []
